@@ -40,6 +40,7 @@ STRATA = [
     ("degenerate", 1200, 20000),
     ("huge-cost", 900, 12000),
     ("larger", 120, 2500),
+    ("scale", 1, 12),
     ("ns-maxiter", 500, 8000),
     ("assignment", 1500, 25000),
 ]
@@ -326,6 +327,21 @@ def gen(stratum, rng, tier):
         d = _demand(rng, n, arcs, s, t) if rng.random() < 0.5 else None
         return _case(rng, n, arcs, s if d is not None else None, t if d is not None else None, d, multi)
 
+    if stratum == "scale":
+        # a pipeline of more than a thousand nodes (the only cheap route is the whole chain: optimum known by
+        # construction), dearer express arcs and a return arc that never pay: basis trees and augmenting paths as deep as
+        # the network is long, under the interpreter's default recursion limit
+        n = rng.randint(1050, 1300)
+        q = rng.randint(1, 3)
+        arcs = [(i, i + 1, rng.randint(q, q + 3), 1) for i in range(n - 1)]
+        for _ in range(rng.randint(1, 6)):
+            i = rng.randrange(n - 40)
+            j = i + rng.randint(3, 30)
+            arcs.append((i, j, rng.randint(1, 2), (j - i) + rng.randint(1, 5)))
+        arcs.append((n - 1, 0, 2, rng.randint(1, 9)))
+        if rng.random() < 0.5:
+            rng.shuffle(arcs)
+        return {"kind": "scale", "n": n, "arcs": arcs, "q": q}
     if stratum == "huge-cost":
         # integer costs far above 2**53 (lexicographic objectives big*primary + secondary, nanosecond or satoshi
         # totals): routes differ only in the low digits, so any float in the labels or the bookkeeping loses them
@@ -651,7 +667,47 @@ def _run_assign(case, obs):
         obs.violate("asg.not-optimal", f"assignment {a!r} costs {val} (reported {res.objective!r}), optimum {best}")
 
 
+def _run_scale(case, obs):
+    from vf.common import call, is_crash
+
+    n, arcs, q = case["n"], case["arcs"], case["q"]
+    want = q * (n - 1)
+    chain = {(i, i + 1) for i in range(n - 1)}
+    supplies = [0] * n
+    supplies[0], supplies[n - 1] = q, -q
+    B = 800_000_000  # observed on the unchanged tree: up to 32M steps (n = 1600)
+
+    def judge(who, res, flows):
+        obs.event("scale.judged")
+        st = getattr(res.status, "name", str(res.status))
+        if st != "OPTIMAL":
+            obs.violate("scale.status", f"{who}: status {st}; routing {q} units along the chain of {n} nodes is feasible")
+            return
+        if res.objective != want:
+            obs.violate("scale.cost", f"{who}: reported cost {res.objective!r}, minimum {want} ({q} units over {n - 1} unit-cost arcs)")
+            return
+        bad = {k: v for k, v in flows.items() if v and (k not in chain or v != q)}
+        missing = [k for k in chain if flows.get(k, 0) != q]
+        if bad or missing:
+            obs.violate("scale.flow", f"{who}: flow is not {q} on every chain arc: off-chain/wrong {dict(list(bad.items())[:3])}, "
+                        f"{len(missing)} chain arcs without it")
+
+    r = call(obs, _ns.network_simplex, n, [tuple(a) for a in arcs], list(supplies), budget=B, what="network_simplex[scale]")
+    if not is_crash(r):
+        judge("network_simplex", r, dict(r.solution or {}))
+    g = {}
+    for u, v, c, w in arcs:
+        g.setdefault(u, []).append((v, c, w))
+    r = call(obs, _flow.min_cost_flow, g, 0, n - 1, q, budget=B, what="min_cost_flow[scale]")
+    if not is_crash(r):
+        judge("min_cost_flow", r, dict(r.solution or {}))
+    obs.nontrivial = True
+    obs.mode("exact")
+
+
 def run(case, obs):
+    if case["kind"] == "scale":
+        return _run_scale(case, obs)
     if case["kind"] == "assign":
         _run_assign(case, obs)
     else:
